@@ -509,7 +509,7 @@ class Savable:
     def save_instance_state(self, out_state: SAVED_STATE_TYPE, save_context: Optional[LoadSaveContext]) -> None:
         self._ensure_persist_configured()
         if self._auto_persist is not None:
-            self.save_members(self._auto_persist, out_state)
+            self.save_members(self._auto_persist, out_state, save_context)
 
     def save(self, save_context: Optional[LoadSaveContext] = None) -> SAVED_STATE_TYPE:
         out_state: SAVED_STATE_TYPE = {}
@@ -532,7 +532,9 @@ class Savable:
         call_with_super_check(self.save_instance_state, out_state, save_context)
         return out_state
 
-    def save_members(self, members: Iterable[str], out_state: SAVED_STATE_TYPE) -> None:
+    def save_members(
+        self, members: Iterable[str], out_state: SAVED_STATE_TYPE, save_context: Optional[LoadSaveContext] = None
+    ) -> None:
         for member in members:
             value = getattr(self, member)
             if inspect.ismethod(value):
@@ -542,7 +544,8 @@ class Savable:
                 value = value.__name__
             elif isinstance(value, Savable):
                 Savable._set_meta_type(out_state, member, META__TYPE__SAVABLE)
-                value = value.save()
+                # (with the same context: a nested object is identified by the same object loader it will be loaded with)
+                value = value.save(save_context)
             else:
                 value = copy.deepcopy(value)
             out_state[member] = value
